@@ -203,10 +203,11 @@ def run(ctx):
                     # known mechanism: the K term was evaluated with ONE (P*, e*) for all rows, i.e.
                     # lp - (analytic without K) = -ln(sqrt(2 pi) s*) - K^2 / (2 s*^2): exactly linear in K^2, slope < 0
                     resid = (lp - (ana - stats.norm(0, sig).logpdf(Kv)))[ok]
-                    A_ = np.stack([np.ones(ok.sum()), Kv[ok] ** 2], axis=1)
+                    k2 = (Kv[ok] / np.max(np.abs(Kv[ok]))) ** 2          # scaled: K may be 1e5 m/s
+                    A_ = np.stack([np.ones(ok.sum()), k2], axis=1)
                     coef, *_ = np.linalg.lstsq(A_, resid, rcond=None)
                     fit_err = np.max(np.abs(A_ @ coef - resid))
-                    if fit_err < 1e-7 * (1 + np.max(np.abs(resid))) and coef[1] < 0:
+                    if fit_err < 1e-6 * (1 + np.max(np.abs(resid))) and coef[1] < 0:
                         key = "ln_prior-K-term-at-unrelated-P-e"
                 ctx.violation(key, "ln_prior minus the analytic joint log-density varies by %.3g over the rows (must be constant)"
                               % spread, dict(desc, lp_head=lp[:3], analytic_head=ana[:3],
